@@ -76,3 +76,22 @@ package kmip
 //@   ensures !mapok(objectTypes, objType) ==> r0 == nil && r1 != nil
 //@   ensures knownObjectType(objType) ==> r1 == nil
 //@   pure
+
+// ---------------------------------------------------------------------------
+// C12: the error built for a failed batch item carries that item's status, reason and message (fmt.Errorf is
+// external): its identity and the fields it was built from are recorded in ghost variables, so that the
+// client can be shown to surface exactly this error.
+
+//@ ghostvar itemErrRet error
+//@ ghostvar itemErrStatus ResultStatus
+//@ ghostvar itemErrReason ResultReason
+//@ ghostvar itemErrMsg string
+
+//@ func (*ResponseBatchItem).Err
+//@   requires bi != nil
+//@   ensures (bi.ResultStatus != ResultStatusSuccess) == (r0 != nil)
+//@   pure
+//@   ghost itemErrRet = r0
+//@   ghost itemErrStatus = bi.ResultStatus
+//@   ghost itemErrReason = bi.ResultReason
+//@   ghost itemErrMsg = bi.ResultMessage
